@@ -383,10 +383,8 @@ Section Equiv.
       - apply scoped_equiv. apply bind_eqm; [|intros; apply eqm_refl]. apply comp_equiv. bb. apply eqm_refl.
       - apply scoped_equiv. apply bind_eqm; [|intros; apply eqm_refl]. apply comp_equiv. bb. bb. apply eqm_refl.
       - eapply eqm_trans; [apply joined_equiv|]. intros s. reflexivity.
-      - cbn [d_fstring_conv no_deviations]. bb. apply bind_eqm_r. intros y.
-        destruct spec as [sp|].
-        + bb. apply eqm_refl.
-        + intros s. reflexivity.
+      - cbn [d_fstring_conv d_fstr_conv_early no_deviations]. bb.
+        apply bind_eqm; [destruct spec; [apply Hev|apply eqm_refl]|]. intros fmt. apply eqm_refl.
     Qed.
 
     Lemma assign_body_equiv t v :
